@@ -192,13 +192,17 @@ def small_histories():
     # a long poll at non-integral spacing: 0.8 s x 200 requests, 2.5 s x 70 requests
     out.append([x for _ in range(200) for x in (["request"], ["advance", 8])])
     out.append([x for _ in range(70) for x in (["request"], ["advance", 25])])
+    # a long-lived client: the agent restarts again and again (12 reboots, each followed by requests;
+    # with and without time passing in between)
+    out.append([["request"]] + [x for _ in range(12) for x in (["reboot"], ["request"], ["request"])])
+    out.append([["request"]] + [x for k in range(12) for x in (["advance", [0, 8, 700, 2000][k % 4]], ["reboot"], ["advance", [0, 8, 1490][k % 3]], ["request"])])
     return out
 
 
 def run(ctx):
     res = Result()
     cases, reqs = [], []
-    hist = [(h, "auth") for h in small_histories()] + [(h, "authpriv") for h in small_histories()[:8]]
+    hist = [(h, "auth") for h in small_histories()] + [(h, "authpriv") for h in small_histories()[:8] + small_histories()[-2:]]
     for _ in range(ctx.budget(250, 6000)):
         hist.append((gen_history(ctx.rng, ctx.quick), ctx.rng.choice(["auth", "authpriv", "auth-sha1", "noauth"])))
     for events, level in hist:
